@@ -85,8 +85,24 @@ struct TI_ : state_machine_def<TI_> {
   template<class F,class Ev> void no_transition(Ev const&,F&,int){ g_log += "NT "; }
 };
 typedef BE<TI_> TI;
+// one event sends one region into an interrupt state and, in the same step, another region into a state that owns a completion
+// transition: the completion event finds the machine interrupted - it is swallowed like any other event while the interruption lasts (C11, C10)
+struct both {};
+struct IC_ : state_machine_def<IC_> {
+  struct A0 : state<> {}; struct Halt : interrupt_state<resume> {};
+  struct B0 : state<> {}; struct B1 : state<> {}; struct B2 : state<> {};
+  typedef mpl::vector<A0,B0> initial_state;
+  struct transition_table : mpl::vector< Row<A0,both,Halt,Lg<'i'>,none>, Row<B0,both,B1,Lg<'b'>,none>, Row<B1,none,B2,Lg<'c'>,none>, Row<Halt,resume,A0,Lg<'r'>,none> > {};
+  template<class F,class Ev> void no_transition(Ev const&,F&,int){ g_log += "NT "; }
+};
+typedef BE<IC_> IC;
 int main(int argc, char** argv) {
   if (argc > 1) g_only = argv[1];
+  { IC m; m.start(); g_log.clear(); m.process_event(both()); const int b1 = cur(m,1); const std::string first = g_log;
+    // (what happens after `resume` differs by design: back / back11 evaluate completion transitions after EVERY handled event, so B1 -> B2 fires
+    //  then; backmp11 fires them only upon entry (version history: "Completion events fire too often", #166) - not compared here)
+    report("interrupt-and-completion-source-entered-in-one-step.completion-is-blocked-while-interrupted", (first == "i b " || first == "b i "), "C11,C10",
+           "after both=[" + first + "] region B id " + std::to_string(b1)); }
   { TI m; m.start(); m.process_event(crash()); const int a = cur(m,0), b = cur(m,1); g_log.clear();
     m.process_event(resume()); m.process_event(go());
     report("terminate-and-interrupt-both-active.end-interrupt-event-is-swallowed", g_log.empty() && cur(m,0) == a && cur(m,1) == b, "C11,C13",
